@@ -16,7 +16,7 @@ from .. import events as E
 from ._h_A import (FactReach, Facts, nodes_of_stmts, nodes_for, kwarg, is_const, stmts_in,
                    attr_sites, obj_sites, inliner, expander, bind_call, call_arg, real_loops,
                    Owners, followed, returns_of, value_at, deref_at, derefs_at, reaching_defs,
-                   innermost_loop, need, opaque_parts, opaque_tests, undissolved,
+                   innermost_loop, need, opaque_parts, opaque_tests, undissolved, is_frame_reset,
                    loop_breaks)
 from .c06 import Scan, LoopRoles, work_item, STEP, LOOP, ONE
 
@@ -243,6 +243,8 @@ def r1_lock_pairing(run, w, sc):
       ok = all((q, what) in allowed for q in owners)
       if ok and what != "read":
         followed(inl, fi, owners)
+      if not ok and what == "rebind" and is_frame_reset(w, fi, node):
+        ok = True       # the frame reset (_pre_update) written in place at the start of a frame
       run.ob(R1, fi.qualname, "%s of %s" % (what, LOCKS), "the lock set is written only by the "
              "scheduler, the evaluation step (unlock on success) and the frame reset",
              ok, fi=fi, node=node, nontrivial=False)
@@ -457,6 +459,8 @@ def r4_edge_before_read(run, w):
   cfg = fn.cfg
   ps = fn.fi.params()
   rec = fn.nodes_calling(lambda c, nm, f: nm == "self._recompute")
+  if not rec:       # the body of _recompute written in place
+    rec = fn.nodes_calling(lambda c, nm, f: nm in ("self._recompute_step", "self._update_loop"))
   if not rec:
     raise AnalysisError("_use_node: self._recompute call not found")
   adds = set()
